@@ -1030,23 +1030,32 @@ func TestVerifGorpConcurrent(t *testing.T) {
 			_ = NewCreate[int32, gEntry]().Entries(&seed).Exec(ctx, w.db)
 			stop := make(chan struct{})
 			var wg sync.WaitGroup
-			wg.Add(1)
-			go func() {
-				defer wg.Done()
-				for i := 0; ; i++ {
-					select {
-					case <-stop:
-						return
-					default:
+			var written atomic.Int64
+			for g := 0; g < 4; g++ {
+				wg.Add(1)
+				go func(g int) {
+					defer wg.Done()
+					// each writer owns the keys congruent to g mod 4: one writer per row, so the
+					// commit/notify window between two writers of one row is not in play here
+					for i := 0; ; i++ {
+						select {
+						case <-stop:
+							return
+						default:
+						}
+						e := gEntry{ID: int32(1 + g + 4*(i%10)), Val: gVals[(i/7)%3]}
+						if i%5 == 4 {
+							_ = NewDelete[int32, gEntry]().Where(MatchKeys[int32, gEntry](e.ID)).Exec(ctx, w.db)
+						} else {
+							_ = NewCreate[int32, gEntry]().Entry(&e).Exec(ctx, w.db)
+						}
+						written.Add(1)
 					}
-					e := gEntry{ID: int32(1 + i%40), Val: gVals[(i/7)%3]}
-					if i%5 == 4 {
-						_ = NewDelete[int32, gEntry]().Where(MatchKeys[int32, gEntry](e.ID)).Exec(ctx, w.db)
-					} else {
-						_ = NewCreate[int32, gEntry]().Entry(&e).Exec(ctx, w.db)
-					}
-				}
-			}()
+				}(g)
+			}
+			for written.Load() < 8 { // the writers are running before the table is opened
+				runtime.Gosched()
+			}
 			w.li = NewLookupIndex[int32, gEntry, string]("val_l", func(e *gEntry) string { return e.Val })
 			w.si = NewSortedIndex[int32, gEntry, string]("val_s", func(e *gEntry) string { return e.Val })
 			tbl, err := OpenTable[int32, gEntry](ctx, TableConfig[int32, gEntry]{DB: w.db, Indexes: []Index[int32, gEntry]{w.li, w.si}})
